@@ -77,6 +77,9 @@ def run(vc):
              "in_area <=> q within it (BaseArea.in_area is proved to be that; concrete areas are assumed)",
              "numpy element-wise semantics of clip / minimum / maximum / sqrt / sign / boolean-mask stores (A-NUMPY)")
     vc.assume_std("A-REAL", "A-GENERIC", "A-NUMPY")
+    # one non-linear inequality (apparent power limit with a PQV area, p priority) is decided by cvc5 only: give it head-room so that
+    # the verdict does not flip when all cores are busy
+    vc.cvc5_timeout_s = max(vc.cvc5_timeout_s, 240)
 
     for with_area in (False, True):
         for sat_active in (True, False):
